@@ -71,6 +71,9 @@ inductive Expr where
   | and (a b : Expr)
   | or (a b : Expr)
   | inList (col : Nat) (ls : List (Option Int)) (negated : Bool)
+  /-- `col IS DISTINCT FROM lit` (`neg = false`) / `col IS NOT DISTINCT FROM lit` (`neg = true`);
+      `lit op col` is the same node (`reverse_operator` maps both operators to themselves) -/
+  | distinct (neg : Bool) (col : Nat) (l : Option Int)
   deriving Repr
 
 /-- `x IN (l₁, …, lₙ)` = `x = l₁ OR … OR x = lₙ` in 3VL -/
@@ -90,6 +93,7 @@ def eval : Expr → Row → Option Bool
   | .and a b, r => and3 (eval a r) (eval b r)
   | .or a b, r => or3 (eval a r) (eval b r)
   | .inList c ls neg, r => if neg then not3 (inList3 (r.iv c) ls) else inList3 (r.iv c) ls
+  | .distinct neg c l, r => some (if neg then decide (r.iv c = l) else decide (r.iv c ≠ l))
 
 /-! ### container statistics; `none` = unknown -/
 
@@ -187,6 +191,27 @@ def statsCmp (op : Cmp) (c : Nat) (l : Option Int) : SExpr :=
      | .lt => .cmp .lt (.min c) (.lit l)
      | .le => .cmp .le (.min c) (.lit l))
 
+/-- `column_has_nulls_expr`: `x_null_count > 0` -/
+def hasNulls (c : Nat) : SExpr := .cmp .gt (.nulls c) (.lit (some 0))
+
+/-- `build_eq_statistics_expr` / `build_ne_statistics_expr` (no null-count wrap) -/
+def eqStats (c : Nat) (l : Option Int) : SExpr :=
+  .and (.cmp .le (.min c) (.lit l)) (.cmp .le (.lit l) (.max c))
+def neStats (c : Nat) (l : Option Int) : SExpr :=
+  .or (.cmp .ne (.min c) (.lit l)) (.cmp .ne (.lit l) (.max c))
+
+/-- `build_is_distinct_from`:
+    `(lit IS NULL AND has_non_nulls) OR (lit IS NOT NULL AND (has_nulls OR ne_stats))` -/
+def distinctS (c : Nat) (l : Option Int) : SExpr :=
+  .or (.and (.lit (some l.isNone)) (hasNonNulls c))
+      (.and (.lit (some l.isSome)) (.or (hasNulls c) (neStats c l)))
+
+/-- `build_is_not_distinct_from`:
+    `(lit IS NULL AND has_nulls) OR (lit IS NOT NULL AND (has_non_nulls AND eq_stats))` -/
+def notDistinctS (c : Nat) (l : Option Int) : SExpr :=
+  .or (.and (.lit (some l.isNone)) (hasNulls c))
+      (.and (.lit (some l.isSome)) (.and (hasNonNulls c) (eqStats c l)))
+
 /-- `DEFAULT_MAX_IN_LIST_SIZE`-style bound (`max_in_list_size`) -/
 def maxInList : Nat := 20
 
@@ -216,6 +241,7 @@ def prunePred : Expr → SExpr
   | .or a b => simpOr (prunePred a) (prunePred b)
   | .inList c ls neg =>
     if ls.length ≤ maxInList then inListS c neg ls else .lit (some true)
+  | .distinct neg c l => if neg then notDistinctS c l else distinctS c l
 
 /-! ### validity of statistics for a container's rows -/
 
